@@ -344,7 +344,7 @@ theorem c18_shape_config_parseServiceIdentity :
 
 theorem c18_shape_config_LoadCothority :
     Shapes.app_config_LoadCothority =
-   ["toml.DecodeFile"] := rfl
+   ["toml.DecodeFile", "ambiguousKeys"] := rfl
 
 theorem c18_shape_config_CothorityConfig_Save :
     Shapes.app_config_CothorityConfig_Save =
@@ -359,7 +359,7 @@ theorem c18_shape_config_CothorityConfig_GetServerIdentity :
 
 theorem c18_shape_config_ReadGroupDescToml :
     Shapes.app_config_ReadGroupDescToml =
-   ["toml.DecodeReader", "s.ToServerIdentity", "onet.NewRoster"] := rfl
+   ["toml.DecodeReader", "ambiguousKeys", "s.ToServerIdentity", "onet.NewRoster"] := rfl
 
 theorem c18_shape_config_Group_Toml :
     Shapes.app_config_Group_Toml =
@@ -372,6 +372,13 @@ theorem c18_shape_NewRoster :
      "if:(err!=nil)", "Public.MarshalTo", "if:(err!=nil)", "h.Sum", "hex.EncodeToString",
      "uuid.NewSHA1", "RosterID", "if:(len(ids)!=0)", "if:(e.Public==nil)", "if:(agg==nil)",
      "Public.Clone", "else", "agg.Add", "return:r"] := rfl
+
+theorem c18_shape_config_ambiguousKeys :
+    Shapes.app_config_ambiguousKeys =
+   ["md.Keys", "if:(i==mapLevel)", "else", "if:((n==len(key))&&(md.Type(key)==\"\"))",
+     "if:strings.HasPrefix(k,(f+\"\"))", "if:(ok&&(prev!=exact))",
+     "return:xerrors.Errorf(\"\",strings.Replace(prev,\"\",\"\",-1),strings.Replace(exact,\"\",\"\",-1))",
+     "return:nil"] := rfl
 
 
 end C18
